@@ -18,7 +18,12 @@ ASSUMPTIONS = [
     'by the code (zeros outside [0,N): analysis coefficients of negative index do not exist; truncating xmap2/2). '
     'It is sharp on the real code. With smaller offsets only the model is compared',
     'tolerances: Haar on integer-valued input is exact; float64 round trip / linearity 1e-12*max|f| for Haar, '
-    'Daubechies reconstruction 1e-5*max|f| (float32 coefficient tables; 5e-5 for float32 images); '
+    'Daubechies reconstruction on float64 / integer images: the PROVED tolerance of theorem C17_tables_error_bound, '
+    'tableTol[code]*max|f| (tableTol = 0, 1.3e-7, 1.9e-7, 2.5e-6, 1.7e-7, 7e-8, 8.1e-7, 1.5e-7, 7e-8, 1.1e-7 for D2..D20, '
+    'read from lean/Mahotas/Properties/C17.lean; exact arithmetic on the float32 tables, every float image being a '
+    'rational image) plus 1e-12*max(1,max|f|) for the rounding of the double evaluation (not proved); it replaces the '
+    'empirical 1e-5 and is 4 to 140 times tighter. float32 images: 5e-5*max|f| (empirical: the kernels then compute in '
+    'float32, whose rounding dominates the proved 2.5e-6); '
     'model comparison 1e-12*scale for float64 and integer images, 1e-4*scale for float32 images (the kernels then '
     'compute in float32, the model in double)',
     'inline=True is not combined with read-only inputs (numpy refuses the final in-place scaling)',
@@ -26,6 +31,26 @@ ASSUMPTIONS = [
 TRUSTED = ['numpy (array construction, layout views)']
 CODES = ['D%d' % i for i in range(2, 21, 2)]
 INT_DT = ['uint8', 'int16', 'int32', 'int64', 'uint16', 'bool']
+
+
+_TABLE_TOL = None
+
+
+def table_tol():
+    """the proved tolerances `tableTol` of lean/Mahotas/Properties/C17.lean (theorem C17_tables_error_bound)"""
+    global _TABLE_TOL
+    if _TABLE_TOL is None:
+        import re
+        from fractions import Fraction
+        src = (core.VERIF / 'lean' / 'Mahotas' / 'Properties' / 'C17.lean').read_text()
+        m = re.search(r'def tableTol : List Rat :=\s*\[(.*?)\]', src, flags=re.S)
+        if not m:
+            raise core.Infra('C17: def tableTol not found in Properties/C17.lean')
+        vals = [Fraction(x.strip().replace(' ', '')) for x in m.group(1).split(',')]
+        if len(vals) != len(CODES) or any(v < 0 or v > Fraction(1, 100000) for v in vals):
+            raise core.Infra('C17: tableTol has an unexpected shape')
+        _TABLE_TOL = [float(v) for v in vals]
+    return _TABLE_TOL
 
 
 def _arr(case, key='data'):
@@ -67,9 +92,9 @@ def _run(case):
         h = mh.haar(Al, preserve_energy=pe, inline=inline)
         if not inline or not isfloat:
             untouched('haar')
-        else:
-            if h is not Al and not np.shares_memory(h, Al):
-                f.append(dict(kind='model', key='inline:haar-not-in-place', detail={}))
+        # the wrapper model (theorem C17_inline_only) says which buffer the call wrote into
+        req.append((f"c17 kind=wrap isfloat={1 if isfloat else 0} inline={1 if inline else 0}",
+                    'input' if (h is Al or np.shares_memory(h, Al)) else 'fresh', None, 'wrap:haar'))
         hc = np.array(h, copy=True)
         req.append((_line('haar', A, pe), hc, _mtol(dt, A) * 4, 'haar'))
         r = mh.ihaar(hc.copy(), preserve_energy=pe, inline=False)
@@ -109,8 +134,9 @@ def _run(case):
         if not inline:
             if not np.array_equal(fc0, fc):
                 f.append(dict(kind='property', key='input-modified:daubechies', detail={}))
-        elif w is not fc and not np.shares_memory(w, fc):
-            f.append(dict(kind='model', key='inline:daubechies-not-in-place', detail={}))
+        # `fc` is always floating point (wavelet_center's dtype); the wrapper model says which buffer is written
+        req.append((f"c17 kind=wrap isfloat=1 inline={1 if inline else 0}",
+                    'input' if (w is fc or np.shares_memory(w, fc)) else 'fresh', None, 'wrap:daubechies'))
         wc = np.array(w, copy=True)
         req.append((_line('daubechies', fc0, code=ci), wc, _mtol(dt, fc0) * 8, f'daubechies'))
         w0 = wc.copy()
@@ -122,7 +148,9 @@ def _run(case):
         # judged in evaluate(): asserted when the offsets of the embedding (from the model) are >= ncoeffs - 2,
         # the margin of theorem C17_reconstruction_centered
         center_req[1].update(err=float(np.abs(np.asarray(rd, np.float64) - A.astype(np.float64)).max()),
-                             tol=(5e-5 if dt == 'float32' else 1e-5) * scale, nco=nco, code=code, border=border)
+                             tol=(5e-5 * scale if dt == 'float32' else
+                                  table_tol()[ci] * float(np.abs(A.astype(np.float64)).max()) + 1e-12 * scale),
+                             nco=nco, code=code, border=border)
     elif k == 'lin':
         name = case['name']
         B = _arr(case, 'data2')
@@ -188,6 +216,10 @@ def evaluate(cases):
                     if c['_margin'] and not got['err'] <= got['tol']:
                         f.append(dict(kind='property', key=f"daubechies-reconstruction:{got['code']}",
                                       detail=dict(err=got['err'], tol=got['tol'], border=got['border'], delta=delta)))
+                continue
+            if key.startswith('wrap:'):
+                if d.get('target') != got:
+                    f.append(dict(kind='model', key=f"inline:{key[5:]}-buffer", detail=dict(real=got, model=d.get('target'))))
                 continue
             model = core.floats(d['model'])
             g = np.asarray(got, np.float64).ravel(order='C')
